@@ -38,6 +38,7 @@ type Event struct {
 	Peer   *Event // wake <-> enq, unlock <-> lock …
 	Held   []string
 	Plain  bool // plain (non-atomic, non-sync) memory access: subject to the race analysis
+	Cap    int  // channel capacity (send / park / selwake events)
 }
 
 type recAssert struct {
@@ -1161,10 +1162,10 @@ func (ex *Exec) concSelect(fr *Frame, x *ssa.Select) Value {
 			if !found {
 				c.newCands[loc] = append(c.newCands[loc], rc)
 			}
-			ex.addEvent(&Event{Kind: "send", Loc: chanLoc(ch), WV: ts.Int(SInt(32, false), uint64(ex.refID(rc))), Aux: "ok"})
+			ex.addEvent(&Event{Kind: "send", Loc: chanLoc(ch), WV: ts.Int(SInt(32, false), uint64(ex.refID(rc))), Aux: "ok", Cap: ch.Cap})
 			return mkRes(0, false, nil)
 		}
-		ex.addEvent(&Event{Kind: "send", Loc: chanLoc(ch), Aux: "fail"})
+		ex.addEvent(&Event{Kind: "send", Loc: chanLoc(ch), Aux: "fail", Cap: ch.Cap})
 		return mkRes(-1, false, nil)
 	}
 	// blocking select: park, then one outcome
@@ -1200,7 +1201,17 @@ func (ex *Exec) concSelect(fr *Frame, x *ssa.Select) Value {
 			}
 		}
 	}
-	k := ex.ctl.Choose(len(opts)+1, func(int) bool { return true })
+	hasTimer := false
+	for _, o := range opts {
+		if o.kind == "timer" {
+			hasTimer = true
+		}
+	}
+	nOpts := len(opts) + 1
+	if hasTimer {
+		nOpts = len(opts) // an armed timer always fires eventually: the select cannot stay parked forever
+	}
+	k := ex.ctl.Choose(nOpts, func(int) bool { return true })
 	if k == len(opts) {
 		park.Aux = "never-woken"
 		var locs []string
@@ -1214,7 +1225,7 @@ func (ex *Exec) concSelect(fr *Frame, x *ssa.Select) Value {
 	}
 	o := opts[k]
 	ch := chans[o.idx]
-	w := ex.addEvent(&Event{Kind: "selwake", Loc: chanLoc(ch), Aux: o.kind, Peer: park})
+	w := ex.addEvent(&Event{Kind: "selwake", Loc: chanLoc(ch), Aux: o.kind, Peer: park, Cap: ch.Cap})
 	park.Peer = w
 	var locs []string
 	for i := range x.States {
@@ -1548,7 +1559,12 @@ func (ex *Exec) checkCombo(combo []*ThreadPath, final *ThreadPath, finalPC []*Te
 				var alts []string
 				for _, s := range events {
 					if s.Kind == "send" && s.Aux == "ok" && s.Loc == e.Loc && s.Thread != e.Thread {
-						alts = append(alts, fmt.Sprintf("(and %s %s (= %s %s) (= %s %s))", lt(park, s), lt(s, e), emit(s.WV), emit(e.WV), "sndto"+fmt.Sprint(s.ID), fmt.Sprint(e.ID)))
+						if s.Cap > 0 {
+							// buffered: the value only has to be in the buffer when the receiver takes it
+							alts = append(alts, fmt.Sprintf("(and %s (= %s %s) (= %s %s))", lt(s, e), emit(s.WV), emit(e.WV), "sndto"+fmt.Sprint(s.ID), fmt.Sprint(e.ID)))
+						} else {
+							alts = append(alts, fmt.Sprintf("(and %s %s (= %s %s) (= %s %s))", lt(park, s), lt(s, e), emit(s.WV), emit(e.WV), "sndto"+fmt.Sprint(s.ID), fmt.Sprint(e.ID)))
+						}
 					}
 				}
 				if len(alts) == 0 {
@@ -1571,6 +1587,56 @@ func (ex *Exec) checkCombo(combo []*ThreadPath, final *ThreadPath, finalPC []*Te
 			if p.Kind == "park" && p.Thread != s.Thread && strings.Contains(","+p.Loc+",", ","+s.Loc+",") {
 				parks = append(parks, p)
 			}
+		}
+		if s.Cap > 0 {
+			// buffered channel (capacity 1 modelled): the send succeeds iff the buffer is empty, i.e.
+			// every earlier successful send has already been received
+			if s.Cap != 1 {
+				assertf("false")
+				continue
+			}
+			var others []*Event
+			for _, o := range events {
+				if o.Kind == "send" && o.Aux == "ok" && o.Loc == s.Loc && o != s {
+					others = append(others, o)
+				}
+			}
+			recvOf := func(o *Event) string { // timestamp at which o's value is taken out (0 = never)
+				var alts []string
+				for _, w := range events {
+					if w.Kind == "selwake" && w.Aux == "recv" && w.Loc == o.Loc {
+						alts = append(alts, fmt.Sprintf("(and (= sndto%d %d) %s)", o.ID, w.ID, lt(w, s)))
+					}
+				}
+				if len(alts) == 0 {
+					return "false"
+				}
+				return "(or " + strings.Join(alts, " ") + ")"
+			}
+			if s.Aux == "ok" {
+				var alts []string
+				alts = append(alts, fmt.Sprintf("(= sndto%d 0)", s.ID)) // value may stay in the buffer forever
+				for _, w := range events {
+					if w.Kind == "selwake" && w.Aux == "recv" && w.Loc == s.Loc {
+						alts = append(alts, fmt.Sprintf("(= sndto%d %d)", s.ID, w.ID))
+					}
+				}
+				assertf("(or %s)", strings.Join(alts, " "))
+				for _, o := range others {
+					assertf("(or %s %s)", lt(s, o), recvOf(o))
+				}
+			} else {
+				var alts []string
+				for _, o := range others {
+					alts = append(alts, fmt.Sprintf("(and %s (not %s))", lt(o, s), recvOf(o)))
+				}
+				if len(alts) == 0 {
+					assertf("false")
+				} else {
+					assertf("(or %s)", strings.Join(alts, " "))
+				}
+			}
+			continue
 		}
 		if s.Aux == "ok" {
 			var alts []string
@@ -1603,6 +1669,9 @@ func (ex *Exec) checkCombo(combo []*ThreadPath, final *ThreadPath, finalPC []*Te
 		for _, k := range events {
 			if k.Kind == "close" && strings.Contains(","+p.Loc+",", ","+k.Loc+",") {
 				assertf("false") // a closed channel would wake it
+			}
+			if k.Kind == "send" && k.Aux == "ok" && k.Cap > 0 && strings.Contains(","+p.Loc+",", ","+k.Loc+",") {
+				assertf("(not (= sndto%d 0))", k.ID) // a buffered value nobody takes would wake it
 			}
 		}
 	}
